@@ -378,4 +378,79 @@ theorem entriesAfterUnsub_held (c : Nat) (topics : List Bytes) (hg : ∀ t ∈ t
     simp only [List.contains_cons]
     cases h.owner == c <;> cases h.filter == t <;> simp
 
+/-! ### (e) the publish fan-out against the entries of the trie -/
+
+/-- the subscriber list the store computes for a good, valid name -/
+theorem subscribers_char (mt : MemTopics) (t : Bytes) (q : Nat) (hwf : WF mt.sroot)
+    (hg : good t = true) (hn : validName t = true) (hq : q ≤ 2) :
+    ∃ r, mt.subscribers t q = some r ∧
+      r.Perm (((abs mt.sroot).filter (fun e => Mqtt.Spec.Match.matchLevels e.1 (split t))).map
+        (fun e => (e.2.1, min q e.2.2))) := by
+  obtain ⟨e1, e2⟩ := Mqtt.Proofs.Topics.levels_valid t hg (Mqtt.Proofs.Topics.validName_validFilter t hn)
+  have hvq : validQos q = true := by rw [Mqtt.Proofs.Topics.validQos_iff]; simpa using hq
+  obtain ⟨r, hr, hp⟩ := C06_smatch_char mt.sroot (split t) q hwf
+  refine ⟨r, ?_, ?_⟩
+  · simp only [MemTopics.subscribers, hvq, Bool.not_true, Bool.false_eq_true, ↓reduceIte, SNode.smatch]
+    rw [← e1, ← e2] at hr
+    exact hr
+  · refine hp.trans ?_
+    have : ∀ l : List Entry,
+        l.filterMap (fun e => if Mqtt.Proofs.Topics.walk e.1 (split t) then some (e.2.1, min q e.2.2) else none) =
+        (l.filter (fun e => Mqtt.Spec.Match.matchLevels e.1 (split t))).map (fun e => (e.2.1, min q e.2.2)) := by
+      intro l
+      simp only [C06_walk_eq_spec]
+      induction l with
+      | nil => rfl
+      | cons e rest ih =>
+        simp only [List.filterMap_cons, List.filter_cons]
+        cases Mqtt.Spec.Match.matchLevels e.1 (split t) <;> simp [ih]
+    rw [this]
+
+/-- (e) `onPublish` of a decoded PUBLISH on a good, valid topic name: the
+outputs are, up to the order of map iteration, one forward per entry of the
+trie whose path matches the name under section 4.7 -/
+theorem onPublish_char (b : B) (p : Pub) (hinv : Inv b)
+    (hg : good p.topic = true) (hn : validName p.topic = true) (hq : p.qos ≤ 2)
+    (hid : p.pktid ≠ 0 ∨ p.qos = 0)
+    (hal : ∀ e ∈ abs b.topics.sroot, e.2.1 < cbBase → b.alive e.2.1 = true) :
+    (onPublish b ⟨p, false⟩).2.2.2 = true ∧
+    (onPublish b ⟨p, false⟩).1 = (retainStep b ⟨p, false⟩).1 ∧
+    (onPublish b ⟨p, false⟩).2.2.1.Perm
+      (((abs b.topics.sroot).filter (fun e => Mqtt.Spec.Match.matchLevels e.1 (split p.topic))).map
+        (fun e => fwd p (e.2.1, min p.qos e.2.2))) := by
+  obtain ⟨hm, hctr⟩ := retainStep_clean b ⟨p, false⟩ rfl
+  obtain ⟨f1, f2, _, _, _⟩ := retainStep_frame b ⟨p, false⟩
+  have ht : p.topic ≠ [] := by
+    intro h0; rw [h0] at hn; exact absurd hn (by decide)
+  have hwf1 : WF (retainStep b ⟨p, false⟩).1.topics.sroot := by rw [f1]; exact hinv.wf
+  obtain ⟨subs, hsubs, hperm⟩ := subscribers_char (retainStep b ⟨p, false⟩).1.topics p.topic p.qos hwf1 hg hn hq
+  rw [f1] at hperm
+  have hmem : ∀ sq ∈ subs, ∃ e ∈ abs b.topics.sroot, sq = (e.2.1, min p.qos e.2.2) := by
+    intro sq hsq
+    have := hperm.mem_iff.mp hsq
+    simp only [List.mem_map, List.mem_filter] at this
+    obtain ⟨e, ⟨he, _⟩, rfl⟩ := this
+    exact ⟨e, he, rfl⟩
+  have hfan := fanout_char subs (retainStep b ⟨p, false⟩).1 ⟨p, false⟩ ht
+    (by
+      rcases hid with h | h
+      · exact Or.inl h
+      · refine Or.inr (fun sq hsq => ?_)
+        obtain ⟨e, _, rfl⟩ := hmem sq hsq
+        simp only [h]; omega)
+    (by
+      intro sq hsq hlt
+      obtain ⟨e, he, rfl⟩ := hmem sq hsq
+      rw [alive_congr b _ f2]
+      exact hal e he hlt)
+  unfold onPublish
+  simp only
+  rw [hm, hsubs]
+  simp only
+  obtain ⟨g1, _, g3⟩ := hfan
+  refine ⟨trivial, g1, ?_⟩
+  rw [g3]
+  have := hperm.map (fwd p)
+  simpa [List.map_map, Function.comp_def] using this
+
 end Mqtt.Proofs.Broker
